@@ -903,6 +903,11 @@ func runTrafficGate(c caseIn) out {
 		}
 		return -1
 	}
+	pending := []int{}
+	flushPending := func() {
+		sched = append(sched, pending...)
+		pending = pending[:0]
+	}
 	// waitFor blocks until reporter r parks or finishes
 	waitFor := func(r int) {
 		for {
@@ -910,7 +915,9 @@ func runTrafficGate(c caseIn) out {
 			case a := <-cc.arrive:
 				_ = 0
 				if a.who-1 != r {
-					// another reporter got through (possible only after a release); record it
+					// a reporter that was blocked on the mutex got through because r just released it (r's own
+					// completion has not been observed yet): its lock + two loads are scheduled AFTER r's steps
+					pending = append(pending, a.who, a.who, a.who)
 					cur[a.who-1] = &a
 					if a.point == "get" {
 						st[a.who-1] = atGet
@@ -1026,6 +1033,7 @@ func runTrafficGate(c caseIn) out {
 			} else if st[r] == finished {
 				sched = append(sched, 1+r, 1+r, 1+r, 1+r)
 			}
+			flushPending()
 		case "step":
 			r := e.A
 			if r >= nR || (st[r] != atGet && st[r] != atUpdate) {
@@ -1039,8 +1047,10 @@ func runTrafficGate(c caseIn) out {
 				sched = append(sched, 1+r)
 			} else {
 				sched = append(sched, 1+r, 1+r, 1+r)
+				flushPending()
 				wake()
 			}
+			flushPending()
 		}
 	}
 	// drain: release everybody, in index order, one complete report at a time
@@ -1066,8 +1076,10 @@ func runTrafficGate(c caseIn) out {
 			sched = append(sched, 1+r)
 		} else {
 			sched = append(sched, 1+r, 1+r, 1+r)
+			flushPending()
 			wake()
 		}
+		flushPending()
 	}
 	for r := range st {
 		if st[r] == blockedOnMu || st[r] == atGet || st[r] == atUpdate {
@@ -1470,8 +1482,16 @@ func runStreamGate(c caseIn) out {
 	}
 	<-closed
 	o["result"] = s
+	o["after"] = tryOp("ReadExact", func() error { _, e := sp2.ReadExact(4); return e })
+	o["reader_closes"] = int(r.closes.Load())
 	if strings.HasPrefix(s, "panic") {
 		return fail(o, "stream-op-during-close-panic", fmt.Sprintf("ReadPacket had read %d chunk(s) when Close ran to completion; its next Read returned data and the following use of the reader panicked: %s", c.Reads, s))
+	}
+	if o["after"] != "err" {
+		return fail(o, "stream-op-after-close", fmt.Sprintf("ReadExact after Close: %v (want a clean error)", o["after"]))
+	}
+	if r.closes.Load() != 1 {
+		return fail(o, "stream-close-count", fmt.Sprintf("underlying reader closed %d times", r.closes.Load()))
 	}
 	return o
 }
